@@ -9,11 +9,13 @@ import (
 	"io"
 	"os"
 	"path/filepath"
+	"reflect"
 	"strconv"
 	"strings"
 	"sync"
 	"testing"
 	"time"
+	"unsafe"
 
 	"github.com/imroc/req/v3/internal/verifh"
 )
@@ -56,6 +58,100 @@ func (r *c17ScriptReader) Read(p []byte) (int, error) {
 }
 func (r *c17ScriptReader) Close() error { return nil }
 
+// ---- building the real automata without naming their (unexported) fields -----------------------
+
+// c17Auto locates the fields of callbackWriter / callbackReader by TYPE: the embedded
+// io.Writer / io.ReadCloser, the one time.Time (last report), the one time.Duration (interval),
+// the one func(int64) (callback) and the int64 counters. Renaming a field does not concern the
+// harness; which int64 of the writer is the total size is found out by asking the real code.
+type c17Auto struct {
+	typ                    reflect.Type
+	ioF, timeF, durF, cbF  int
+	ints                   []int
+	total                  int // writer only: index of the total-size field
+}
+
+func c17SetField(f reflect.Value, v interface{}) {
+	reflect.NewAt(f.Type(), unsafe.Pointer(f.UnsafeAddr())).Elem().Set(reflect.ValueOf(v))
+}
+
+func c17Locate(typ, ioType reflect.Type) (*c17Auto, error) {
+	a := &c17Auto{typ: typ, ioF: -1, timeF: -1, durF: -1, cbF: -1, total: -1}
+	for i := 0; i < typ.NumField(); i++ {
+		ft := typ.Field(i).Type
+		switch {
+		case ft == ioType && a.ioF < 0:
+			a.ioF = i
+		case ft == reflect.TypeOf(time.Time{}) && a.timeF < 0:
+			a.timeF = i
+		case ft == reflect.TypeOf(time.Duration(0)) && a.durF < 0:
+			a.durF = i
+		case ft == reflect.TypeOf((func(int64))(nil)) && a.cbF < 0:
+			a.cbF = i
+		case ft.Kind() == reflect.Int64:
+			a.ints = append(a.ints, i)
+		default:
+			return nil, fmt.Errorf("%s: field %d of unexpected type %s", typ.Name(), i, ft)
+		}
+	}
+	if a.ioF < 0 || a.timeF < 0 || a.durF < 0 || a.cbF < 0 {
+		return nil, fmt.Errorf("%s: expected one each of %s, time.Time, time.Duration, func(int64)", typ.Name(), ioType)
+	}
+	return a, nil
+}
+
+// build makes a fresh automaton: io = the scripted peer, interval, last-report time = now, the
+// callback, and (writer) the total size.
+func (a *c17Auto) build(io interface{}, interval time.Duration, cb func(int64), total int64) reflect.Value {
+	p := reflect.New(a.typ)
+	c17SetField(p.Elem().Field(a.ioF), io)
+	c17SetField(p.Elem().Field(a.durF), interval)
+	c17SetField(p.Elem().Field(a.timeF), time.Now())
+	c17SetField(p.Elem().Field(a.cbF), cb)
+	if a.total >= 0 {
+		c17SetField(p.Elem().Field(a.total), total)
+	}
+	return p
+}
+
+// forceClock makes the next clock test come out as wanted (interval is 1 h in this regime).
+func (a *c17Auto) forceClock(p reflect.Value, elapsed bool) {
+	t := time.Now()
+	if elapsed {
+		t = t.Add(-2 * time.Hour)
+	}
+	c17SetField(p.Elem().Field(a.timeF), t)
+}
+
+type c17AcceptAll struct{}
+
+func (c17AcceptAll) Write(p []byte) (int, error) { return len(p), nil }
+
+// c17LocateWriter also identifies the total-size counter: the int64 field which, preset to 7,
+// makes a 7-byte write report 7 although the clock never elapses.
+func c17LocateWriter() (*c17Auto, error) {
+	a, err := c17Locate(reflect.TypeOf(callbackWriter{}), reflect.TypeOf((*io.Writer)(nil)).Elem())
+	if err != nil {
+		return nil, err
+	}
+	for _, idx := range a.ints {
+		var got []int64
+		p := a.build(c17AcceptAll{}, time.Hour, func(n int64) { got = append(got, n) }, 0)
+		c17SetField(p.Elem().Field(idx), int64(7))
+		p.Interface().(io.Writer).Write(make([]byte, 7))
+		if len(got) == 1 && got[0] == 7 {
+			if a.total >= 0 {
+				return nil, fmt.Errorf("callbackWriter: two int64 fields behave like the total size")
+			}
+			a.total = idx
+		}
+	}
+	if a.total < 0 {
+		return nil, fmt.Errorf("callbackWriter: no int64 field behaves like the total size")
+	}
+	return a, nil
+}
+
 // c17ProgressOracle: the emitted counts are strictly increasing, each is the true byte count
 // after some call (a member of counts), none exceeds the total.
 func c17ProgressOracle(emitted []int64, counts []int64, total int64) bool {
@@ -93,8 +189,12 @@ func c17Ints64(l []int64) string {
 // regimes interval 0 (always elapsed) and 1 h (never).
 func TestVerif_C17_progw(t *testing.T) {
 	s := verifh.New(t, "C17", "progw",
-		"1..12 Write calls with generated results (full writes of sizes around 1, 512, 32 KiB; short writes with error; 0 and negative results), totalSize = true total | 0 (unknown) | an intermediate count | a wrong value; clock bit per call forced through lastTime, or interval 0 / 1 h; real callbackWriter.Write; oracle: counts strictly increasing, each a true running count, none above the bytes written, last = total when the size was known; non-trivial = at least 2 callbacks")
+		"1..12 Write calls with generated results (full writes of sizes around 1, 512, 32 KiB; short writes with error; 0 and negative results), total size = true total | 0 (unknown) | an intermediate count | a wrong value; clock bit per call forced through the automaton's time field (located by type, not by name), or interval 0 / 1 h; real callbackWriter.Write; oracle: counts strictly increasing, each a true running count, none above the bytes written, last = total when the size was known; non-trivial = at least 2 callbacks")
 	r := s.Rand()
+	auto, aerr := c17LocateWriter()
+	if aerr != nil {
+		t.Fatalf("cannot drive the real callbackWriter: %v", aerr)
+	}
 	n := verifh.N(3000, 100000)
 	for i := 0; i < n; i++ {
 		k := 1 + r.Intn(12)
@@ -162,17 +262,13 @@ func TestVerif_C17_progw(t *testing.T) {
 			s.Count("forced-clock")
 		}
 		var emitted []int64
-		w := &callbackWriter{Writer: &c17ScriptWriter{ns: ns}, totalSize: total, interval: interval, lastTime: time.Now(),
-			callback: func(written int64) { emitted = append(emitted, written) }}
+		wp := auto.build(&c17ScriptWriter{ns: ns}, interval, func(written int64) { emitted = append(emitted, written) }, total)
+		w := wp.Interface().(io.Writer)
 		buf := make([]byte, 100000)
 		if txt, bad := verifh.Safely(func() {
 			for j := range ns {
 				if regime >= 2 {
-					if clock[j] == 1 {
-						w.lastTime = time.Now().Add(-2 * time.Hour)
-					} else {
-						w.lastTime = time.Now()
-					}
+					auto.forceClock(wp, clock[j] == 1)
 				}
 				w.Write(buf[:req[j]])
 			}
@@ -196,6 +292,10 @@ func TestVerif_C17_progr(t *testing.T) {
 	s := verifh.New(t, "C17", "progr",
 		"1..12 Read calls with generated results (n from 0, 1, 512, 32 KiB…, error nil | io.EOF | other; EOF repeated after EOF; data together with EOF), clock bit per call forced through lastTime, or interval 0 / 1 h; real callbackReader.Read; oracle: counts strictly increasing, each a true running count, none above the bytes read, last = total once EOF was delivered; non-trivial = at least 2 callbacks")
 	r := s.Rand()
+	auto, aerr := c17Locate(reflect.TypeOf(callbackReader{}), reflect.TypeOf((*io.ReadCloser)(nil)).Elem())
+	if aerr != nil {
+		t.Fatalf("cannot drive the real callbackReader: %v", aerr)
+	}
 	n := verifh.N(3000, 100000)
 	for i := 0; i < n; i++ {
 		k := 1 + r.Intn(12)
@@ -252,17 +352,13 @@ func TestVerif_C17_progr(t *testing.T) {
 			s.Count("forced-clock")
 		}
 		var emitted []int64
-		cr := &callbackReader{ReadCloser: &c17ScriptReader{ns: ns, errs: errs}, interval: interval, lastTime: time.Now(),
-			callback: func(read int64) { emitted = append(emitted, read) }}
+		rp := auto.build(&c17ScriptReader{ns: ns, errs: errs}, interval, func(read int64) { emitted = append(emitted, read) }, 0)
+		cr := rp.Interface().(io.Reader)
 		buf := make([]byte, 70000)
 		if txt, bad := verifh.Safely(func() {
 			for j := range ns {
 				if regime >= 2 {
-					if clock[j] == 1 {
-						cr.lastTime = time.Now().Add(-2 * time.Hour)
-					} else {
-						cr.lastTime = time.Now()
-					}
+					auto.forceClock(rp, clock[j] == 1)
 				}
 				cr.Read(buf)
 			}
